@@ -502,12 +502,6 @@ def _record_unspecified(ctx, backend, stem, o):
         seams.open_fault = None
         if log is not None:
             log.fail_at = None
-        h = getattr(backend, "input_file_handler", None)
-        if h is not None:
-            try:
-                h.close()
-            except Exception:
-                pass
 
 
 def _fd(a, b):
